@@ -259,7 +259,15 @@ class BufferHarness:
                 for t in ts:
                     t.cancel()
                 if ts:
-                    loop.run_until_complete(aio.gather(*ts, return_exceptions=True))
+                    g = aio.gather(*ts, return_exceptions=True)
+                    for _ in range(3):
+                        try:
+                            loop.run_until_complete(g)
+                            break
+                        except RuntimeError as e:
+                            # a stop() injected just before the shutdown began takes effect in its first iteration
+                            if stop_at is None or 'stopped before' not in str(e):
+                                raise
                 emit('shutdown_done', all(t.done() for t in box['bg']))
                 loop.close()
 
